@@ -434,6 +434,10 @@ func (g *uciGen) during(w *uciWorld) {
 		g.queue = append(g.queue, UStep{Op: "grant"})
 		return
 	}
+	if w.hazard && w.parked {
+		g.queue = append(g.queue, UStep{Op: "run", Polls: g.quantum()})
+		return
+	}
 	if w.hasPend && g.stall == 0 {
 		opts = append(opts, opt{4, func() { g.queue = append(g.queue, UStep{Op: "grant", N: 1 + r.IntN(2)}) }})
 	}
